@@ -282,6 +282,43 @@ def parseBitfield : M Nat := do
   if allDigits tok.value then pure tok.value.toNat!
   else pyRaise "ValueError" "invalid literal for int()"
 
+/-- the end of `_parse_field`: the callback for a typedef, a field or a variable -/
+def fieldEmit (mods : Mods) (state : BlockView) (dtype : DType) (pqname : Option PQName)
+    (template : Option TemplateDecl) (name : Option String) (bits : Option Nat) (default : Option Value)
+    (doxygen : Option String) (isTypedef : Bool) : M Unit :=
+  let isClassBlock := state.kind = .cls
+  if isTypedef then
+    match name with
+    | some n =>
+      if n.isEmpty then raiseParseError none
+      else do
+        let access ← currentAccess
+        emit (.typedef { type := dtype, name := n, access := access })
+    | none => raiseParseError none
+  else if isClassBlock then
+    match state.access with
+    | none => pyRaise "AssertionError" ""
+    | some access =>
+      if hasKey mods.both "extern" then
+        pyRaise "TypeError" "Field.__init__() got an unexpected keyword argument 'extern'"
+      else
+        emit (.classField
+          { name := name, type := dtype, access := access, value := default, bits := bits,
+            doxygen := doxygen, constexpr := hasKey mods.both "constexpr",
+            static := hasKey mods.both "static", inline := hasKey mods.both "inline",
+            mutable := hasKey mods.vars "mutable" })
+  else
+    match pqname with
+    | none => pyRaise "AssertionError" ""
+    | some pq =>
+      if hasKey mods.vars "mutable" then
+        pyRaise "TypeError" "Variable.__init__() got an unexpected keyword argument 'mutable'"
+      else
+        emit (.variable
+          { name := pq, type := dtype, value := default, doxygen := doxygen, template := template,
+            constexpr := hasKey mods.both "constexpr", extern := hasKey mods.both "extern",
+            static := hasKey mods.both "static", inline := hasKey mods.both "inline" })
+
 /-- `_parse_field(...)` -/
 def parseField (F : Nat) (mods : Mods) (dtype : DType) (pqname : Option PQName)
     (template : Option TemplateDecl) (doxygen : Option String) (location : LocRef)
@@ -336,37 +373,7 @@ def parseField (F : Nat) (mods : Mods) (dtype : DType) (pqname : Option PQName)
   let doxygen ← (match doxygen with
     | none => getDoxygenAfter
     | some d => pure (some d))
-  if isTypedef then
-    match name with
-    | some n =>
-      if n.isEmpty then raiseParseError none
-      else do
-        let access ← currentAccess
-        emit (.typedef { type := dtype, name := n, access := access })
-    | none => raiseParseError none
-  else if isClassBlock then
-    match state.access with
-    | none => pyRaise "AssertionError" ""
-    | some access =>
-      if hasKey mods.both "extern" then
-        pyRaise "TypeError" "Field.__init__() got an unexpected keyword argument 'extern'"
-      else
-        emit (.classField
-          { name := name, type := dtype, access := access, value := default, bits := bits,
-            doxygen := doxygen, constexpr := hasKey mods.both "constexpr",
-            static := hasKey mods.both "static", inline := hasKey mods.both "inline",
-            mutable := hasKey mods.vars "mutable" })
-  else
-    match pqname with
-    | none => pyRaise "AssertionError" ""
-    | some pq =>
-      if hasKey mods.vars "mutable" then
-        pyRaise "TypeError" "Variable.__init__() got an unexpected keyword argument 'mutable'"
-      else
-        emit (.variable
-          { name := pq, type := dtype, value := default, doxygen := doxygen, template := template,
-            constexpr := hasKey mods.both "constexpr", extern := hasKey mods.both "extern",
-            static := hasKey mods.both "static", inline := hasKey mods.both "inline" })
+  fieldEmit mods state dtype pqname template name bits default doxygen isTypedef
 
 def typenameOf : DType → Option PQName
   | .type n _ _ => some n
@@ -673,6 +680,15 @@ def maybeParseClassEnumDecl (F : Nat) (c : Core) (typename : PQName) (mods : Mod
         pure true
     | none => pure false
 
+/-- one declarator of a declaration statement and the `,` or `;` after it; the state is the
+    location and the doc text for the declarator (the first declarator's are the statement's) -/
+def declaratorBody (F : Nat) (c : Core) (pt : DType) (mods : Mods) (template : TemplateVar) (isTypedef isFriend : Bool)
+    (st : LocRef × Option String) : M ((LocRef × Option String) ⊕ Unit) := do
+  if (← parseDecl F c pt mods st.1 st.2 template isTypedef isFriend) then pure (.inr ())
+  else do
+    let tok ← nextTokenMustBe [",", ";"]
+    if tok.type = ";" then pure (.inr ()) else pure (.inl (LocRef.tok tok.sidx, none))
+
 /-- `_parse_declarations(tok, doxygen, template, is_typedef, is_friend)` -/
 def parseDeclarations (F : Nat) (c : Core) (tok : CTok) (doxygen : Option String)
     (template : TemplateVar := .none) (isTypedef : Bool := false) (isFriend : Bool := false) : M Unit := do
@@ -705,12 +721,7 @@ def parseDeclarations (F : Nat) (c : Core) (tok : CTok) (doxygen : Option String
     Mods.validate mods varOk methOk msg
     match parsedType with
     | none => parseOperatorConversion F c mods location doxygen template isTypedef isFriend
-    | some pt =>
-      loopN F (location, doxygen) (fun (location, doxygen) => do
-        if (← parseDecl F c pt mods location doxygen template isTypedef isFriend) then pure (.inr ())
-        else do
-          let tok ← nextTokenMustBe [",", ";"]
-          if tok.type = ";" then pure (.inr ()) else pure (.inl (LocRef.tok tok.sidx, none)))
+    | some pt => loopN F (location, doxygen) (declaratorBody F c pt mods template isTypedef isFriend)
 
 /-! ### namespace, extern, friend, inline, typedef, block end -/
 
